@@ -1,7 +1,7 @@
 (* C08 — property theorems only. *)
 From Coq Require Import List NArith.
 Import ListNotations.
-From IV Require Import C08.Defs C08.Proofs.
+From IV Require Import C08.Defs C08.Proofs C15.Defs C08.Subst C08.SubstProofs.
 
 (* object-like fragment: the lexer's stack of active expansions computes exactly the hide-set algorithm of the standard:
    every table (self-, mutual and forward reference included), every text, every fuel *)
@@ -29,3 +29,25 @@ Theorem c08_stringify_pinned_refuted :
   forallb stok_ok ts = true /\ stringify false (flat_map stok_src ts) <> stringify_spec ts.
 Proof. exact stringify_pinned_refuted. Qed.
 Print Assumptions c08_stringify_pinned_refuted.
+
+(* function-like macros, the substitution step (r_expand on the nodes of the replacement list):
+   __VA_OPT__ contributes exactly when what __VA_ARGS__ is replaced by has at least one character (any number of arguments) *)
+Theorem c08_va_opt_iff : forall args v, has_va_args true args (Some v) = Ok (negb (is_empty (va_text args v))).
+Proof. exact va_opt_iff. Qed.
+Print Assumptions c08_va_opt_iff.
+
+(* looking at the first variable argument only (the seeded variant) loses the group in F(1, , 2) *)
+Theorem c08_va_opt_first_only_refuted :
+  let args := [[49%N]; []; [50%N]] in
+  has_va_args false args (Some 1) = Ok false /\ is_empty (va_text args 1) = false /\ has_va_args true args (Some 1) = Ok true.
+Proof. exact va_opt_first_only_refuted. Qed.
+Print Assumptions c08_va_opt_first_only_refuted.
+
+(* 6.10.3.1: a parameter that is an operand of neither # nor ## is replaced by the EXPANDED argument; 6.10.3.2 / 6.10.3.3: an operand of #
+   is replaced by the stringified spelling and an operand of ## by the spelling, neither of them expanded *)
+Theorem c08_parameter_replacement : forall exp_arg fo args i a, nth_error args i = Some a ->
+  rx_node exp_arg fo args None (mk_parm i false false) [] = Ok (exp_arg a) /\
+  rx_node exp_arg fo args None (mk_parm i true false) [] = Ok (stringify true a) /\
+  rx_node exp_arg fo args None (mk_parm i false true) [] = Ok a.
+Proof. exact parameter_replacement. Qed.
+Print Assumptions c08_parameter_replacement.
